@@ -406,6 +406,9 @@ func (q *seqRun) doOp() {
 				lj := &live.Jobs[i]
 				pj, ok := last.Jobs[lj.ID]
 				if !ok {
+					if q.o.Retention && (lj.Completed || lj.Canceled) {
+						continue // the save itself applied the retention settings to this finished job
+					}
 					q.find([]string{"C10", "C12"}, "C10:snapshot-differs-from-reported-state", "%s is reported but missing in the snapshot handed to the store", q.jn(lj.ID))
 					continue
 				}
